@@ -368,6 +368,11 @@ def main():
         # all heads with arity <= 1; arity 2 for a seeded tenth of the heads
         keep = set(r.sample(heads, max(1, len(heads) // 10)))
         shapes = [s for s in shapes if len(s[1]) <= 1 or s[0] in keep]
+    if a.tier == 'thorough' and not a.replay:
+        # all heads with arity <= 2; arity 3 (14^3 child shapes per head) for
+        # a seeded twentieth of the heads - the full product is days of work
+        keep = set(r.sample(heads, max(1, len(heads) // 20)))
+        shapes = [s for s in shapes if len(s[1]) <= 2 or s[0] in keep]
     qk = a.tier == 'quick'
     chunks = [[(h, k, qk) for h, k in shapes[i::64]] for i in range(64)]
     with multiprocessing.get_context('fork').Pool(common.NCPU) as pool:
